@@ -445,6 +445,80 @@ def reaches_alias(p, src):
     return False
 
 
+def replay_version_model(rep, wd, quick):
+    """spec -> code: behaviours of Version.tla (tlc -simulate) performed on real interpreter processes; the version strings
+    the code answers must induce the same equalities as the abstract versions of the model along the whole behaviour (also
+    across processes), and a root call must be served exactly when the model says so."""
+    from . import tlaparse
+    behs, sr = tlc.simulate("MCVersion", "Version_sim.cfg", wd, num=(40 if quick else 400), depth=11, seed=common.seed() + 5,
+                            only={"last", "text", "atarget", "val"})
+    rep.add_tlc(sr, "simulate Version_sim.cfg (behaviours replayed on real interpreters)")
+    jobs = []
+    for b in behs:
+        for st in b:
+            s_ = st["state"]
+            if "text" in s_:
+                for n, t in s_["text"].items():
+                    t["refs"] = sorted(t["refs"])
+        jobs.append({"behaviour": b})
+    res = common.run_jobs("vmodel_worker.py", jobs, wd, timeout=3000)
+    nonconf, notes, nq, ncall, nknown = 0, [], 0, 0, 0
+
+    def collides(ver):
+        seen = {}
+        for t in (ver or []):
+            t = list(t)
+            if seen.setdefault((t[0], t[2]), repr(t[3])) != repr(t[3]):
+                return True
+        return False
+    for b, out in zip(behs, res):
+        a2r, r2a = {}, {}
+        bad = None
+        for i, (step, got) in enumerate(zip(b[1:], out["results"])):
+            e = step["state"]["last"]
+            if got is None:
+                continue
+            if got.get("exc"):
+                if e["ev"] == "Query":
+                    bad = {"step": i + 1, "event": e["ev"], "n": e.get("n"), "exc": got["exc"][:120]}
+                    break
+                continue          # a call of a program whose variable is undefined raises NameError: nothing to compare
+            if collides(e.get("ver")):
+                # one function reached under two symbols that hold different objects: the code keeps one rule for both
+                # (open finding C13-/C01-two-symbols-one-function-one-rule); the model keeps both, so what follows differs
+                nknown += 1
+                break
+            if e["ev"] == "Query":
+                nq += 1
+                av = tlaparse._freeze(e["ver"])
+                rv = got.get("ver")
+                if a2r.setdefault(av, rv) != rv or r2a.setdefault(rv, av) != av:
+                    bad = {"step": i + 1, "event": "Query", "n": e.get("n"), "wrapper": e.get("wrapper"),
+                           "why": "version equalities differ from the model's", "real": rv}
+                    break
+            elif e["ev"] == "Call":
+                ncall += 1
+                served = "f" not in (got.get("ran") or [])
+                if served != bool(e["served"]):
+                    bad = {"step": i + 1, "event": "Call", "model_served": bool(e["served"]), "real_served": served}
+                    break
+        if bad:
+            nonconf += 1
+            if len(notes) < 5:
+                bad["events"] = [{k: (v if k != "ver" else "...") for k, v in s_["state"]["last"].items()} for s_ in b[1:bad["step"] + 1]]
+                notes.append(bad)
+    rep.cov["model_behaviours_replayed"] = len(behs)
+    rep.cov["model_queries_compared"] = nq
+    rep.cov["model_calls_compared"] = ncall
+    rep.cov["model_behaviours_cut_at_open_finding"] = nknown
+    rep.cov["nonconformances"] = rep.cov.get("nonconformances", 0) + nonconf
+    if nonconf:
+        print("NONCONFORMANCE: %d of %d replayed Version.tla behaviours diverge from the model (informational)" % (nonconf, len(behs)))
+        for n_ in notes[:3]:
+            print("  " + json.dumps(n_)[:700])
+        rep.cov["nonconformance_notes"] = notes
+
+
 GEN = {"C01": history_c01, "C03": history_c03, "C13": history_c13}
 NJOBS = {"C01": (36, 1200), "C03": (24, 300), "C13": (36, 1500)}
 
@@ -484,9 +558,19 @@ def run(prop, tier):
                              timeout=280 if quick else 2400)
         rep.add_tlc(mc, "exhaustive: Version.tla (hash rules, generation counter, version cache, did_change) keeps Coherent / Fresh / Deterministic")
         common.tick("model check done")
+        if not quick:
+            kf = {"C13": [("Version_KF_AdoptCached.cfg", "Coherent"), ("Version_KF_AliasBlind.cfg", "Coherent"),
+                          ("Version_KF_OneRulePerKey.cfg", "Coherent")],
+                  "C01": [("Version_KF_DefaultsNotHashed.cfg", "Fresh")]}.get(prop, [])
+            for cfg_, inv in kf:
+                tlc.expect_counterexample("MCVersion", cfg_, inv, wd)
+            if kf:
+                rep.cov["deviation_configs_with_counterexample"] = [c for c, _ in kf]
         if prop == "C14":
             from . import check_closure
             return check_closure.run_body(rep, r, wd, quick)
+        if prop == "C13":
+            replay_version_model(rep, wd, quick)
         n = NJOBS[prop][0 if quick else 1]
         jobs = [history_alias(r, prop, collide=(i % 12 == 11)) if prop in ("C01", "C13") and i % 6 == 5 else
                 history_aba(r, prop) if prop in ("C01", "C13") and i % 6 == 2 else GEN[prop](r, quick) for i in range(n)]
